@@ -190,6 +190,7 @@ class VerifyMixin:
         self.cur_root_target_inline = c.target
         self.cur_inline_callees = c.inline_callees
         n0 = len(self.obligations)
+        self.executed_nodes = set()
         st = State()
         for bg in (self.background or ()):
             st.assume(bg)
@@ -310,6 +311,31 @@ class VerifyMixin:
             self.oblige(tmp, f'vacuity.twin_must_fail.{nm}', z3.Or(disj), kind='twin', expect='sat')
         self.cur_root_target_inline = None
         self.cur_inline_callees = ()
+        # statements of the root that no feasible path reached: dead under the contract's preconditions / callee contracts.
+        # Reported (evidence + DEAD-UNDER-CONTRACT lines), since an over-strong precondition makes clauses about them vacuous.
+        import ast as _ast
+        dead = []
+
+        def walk(stmts):
+            for i, s in enumerate(stmts):
+                if isinstance(s, (_ast.FunctionDef, _ast.AsyncFunctionDef, _ast.ClassDef)):
+                    if id(s) not in self.executed_nodes:
+                        dead.append(s.lineno)
+                    continue
+                if isinstance(s, _ast.Expr) and isinstance(s.value, _ast.Constant) and isinstance(s.value.value, str):
+                    continue
+                if id(s) not in self.executed_nodes:
+                    dead.append(s.lineno)
+                    continue
+                for fld in ('body', 'orelse', 'finalbody'):
+                    walk(getattr(s, fld, []) or [])
+                for h in getattr(s, 'handlers', []) or []:
+                    walk(h.body)
+        walk(finfo.node.body)
+        if dead:
+            self.dead_under_contract.setdefault(c.target, {})[suffix or '-'] = sorted(set(dead))
+        elif suffix:
+            self.dead_under_contract.setdefault(c.target, {})[suffix] = []
         return {'function': c.target, 'paths': len(terminals), 'normal_paths': n_normal,
                 'obligations': len(self.obligations) - n0, 'lines': (finfo.lineno, finfo.end_lineno),
                 'module_sha256': finfo.module.sha256}
